@@ -166,3 +166,37 @@ namespace Drv.Solver
 def handlers : List (String × (Lean.Json → Except String String)) :=
   [("solve_t", handleSolveT), ("solve", handleSolve), ("solve_period", handleSolvePeriod)]
 end Drv.Solver
+
+namespace Drv.Solver
+
+def labelStr : TraceLabel → String
+  | .start => "start"
+  | .before => "before"
+  | .iter k => toString k
+  | .«end» => "end"
+
+def traceStr (l : List (TraceLabel × Array Float)) : String :=
+  joinWith ";" (l.map fun (lab, v) => labelStr lab ++ ":" ++ joinWith "," (v.toList.map bitsStr))
+
+/-- kind `traced_solve_t`: `{model…, opts, t, traced: [var indices], on: bool, repeat: n}`
+    → `result|status|iters|values|trace` after `repeat` consecutive traced solves of the same period. -/
+def handleTraced (j : Json) : R String := do
+  let (M, w) ← parseModel j
+  let o ← parseOpts (← obj j "opts")
+  let t ← int j "t"
+  let tv ← (← arr j "traced").toList.mapM (·.getNat?)
+  let on ← bool j "on"
+  let rep ← nat j "repeat"
+  let snap : SState → Int → Array Float := fun u t =>
+    (tv.map fun i => (u[i]?.getD #[])[pos M.n t]?.getD 0.0).toArray
+  let step := fun (acc : World (SState × List (TraceLabel × Array Float)) × List String) (_ : Nat) =>
+    let (w', r) := tracedSolveT (interp M) snap on o M.n t acc.1
+    (w', acc.2 ++ [resultStr r])
+  let (w', rs) := (List.range rep).foldl step (⟨(w.user, []), w.status, w.iters⟩, [])
+  pure (joinWith "," rs ++ "|" ++ statusStr w'.status ++ "|" ++ joinWith "," (w'.iters.map toString) ++ "|" ++
+    joinWith ";" (w'.user.1.toList.map fun row => joinWith "," (row.toList.map bitsStr)) ++ "|" ++ traceStr w'.user.2)
+
+def handlers2 : List (String × (Lean.Json → Except String String)) :=
+  handlers ++ [("traced_solve_t", handleTraced)]
+
+end Drv.Solver
